@@ -536,6 +536,68 @@ func stressRTMetrics(c cfgT, r *result) {
 	r.check(m.TotalCount() == 0 && len(m.StatusCodesCounts()) == 0, "after Reset: TotalCount=%d", m.TotalCount())
 	r.kv("records", n)
 	r.kv("appends", appends)
+	// inspectors after the window has moved: Count() -> cleanup() zeroes the buckets that expired since the
+	// last Record, i.e. "reading" writes once the frozen clock has advanced by >= one resolution (1 s).
+	// Rounds of: Record phase, advance 1-3 s, then 8 concurrent inspection goroutines; fresh metrics per
+	// round so the exact totals are known (advance < 10 s window).
+	now := int64(0)
+	rounds, inspected := 0, int64(0)
+	for k := 0; k < 40 && time.Now().Before(c.deadline); k++ {
+		mm, err := memmetrics.NewRTMetrics()
+		must(err)
+		var wg sync.WaitGroup
+		const recs = 50
+		for g := 0; g < 4; g++ {
+			wg.Add(1)
+			go func(g int) {
+				defer wg.Done()
+				for i := 0; i < recs; i++ {
+					mm.Record(codes[(g+i)%len(codes)], time.Duration(1+i)*time.Millisecond)
+				}
+			}(g)
+		}
+		wg.Wait()
+		now += int64(1+k%3) * int64(time.Second)
+		hx.AdvanceTo(now)
+		start := make(chan struct{})
+		for g := 0; g < 8; g++ {
+			wg.Add(1)
+			go func(g int) {
+				defer wg.Done()
+				<-start
+				for i := 0; i < 60; i++ {
+					switch (g + i) % 6 {
+					case 0:
+						_ = mm.StatusCodesCounts()
+					case 1:
+						_ = mm.ResponseCodeRatio(500, 600, 200, 600)
+					case 2:
+						_ = mm.NetworkErrorRatio()
+					case 3:
+						_ = mm.TotalCount()
+						_ = mm.NetworkErrorCount()
+					case 4:
+						if h, err := mm.LatencyHistogram(); err == nil {
+							_ = h.LatencyAtQuantile(50)
+						}
+					case 5:
+						_ = mm.Export().TotalCount()
+					}
+					atomic.AddInt64(&inspected, 1)
+				}
+			}(g)
+		}
+		close(start)
+		wg.Wait()
+		sum := int64(0)
+		for _, v := range mm.StatusCodesCounts() {
+			sum += v
+		}
+		r.check(mm.TotalCount() == 4*recs && sum == 4*recs, "round %d (clock +%ds after the last Record): TotalCount=%d status-code sum=%d, want %d", k, 1+k%3, mm.TotalCount(), sum, 4*recs)
+		rounds++
+	}
+	r.kv("window-rounds", rounds)
+	r.kv("inspections", inspected)
 }
 
 // ---------------------------------------------------------------- TTL map used directly
